@@ -1,0 +1,19 @@
+//go:build verif
+// +build verif
+
+package astisub
+
+import "time"
+
+// Verification hooks for the WebVTT codec (build tag "verif"): exported one-line forwarders over
+// unexported functions. Nothing here is compiled without the tag and nothing changes behaviour.
+
+func VerifWebVTTTagSubmatch(s string) []string { return webVTTRegexpTag.FindStringSubmatch(s) }
+func VerifParseTextWebVTTTextToken(line string, pending time.Duration) ([]LineItem, time.Duration) {
+	return parseTextWebVTTTextToken(nil, line, pending)
+}
+func VerifParseTextWebVTT(line string, sa *StyleAttributes) Line { return parseTextWebVTT(line, sa) }
+func VerifLineWebVTTBytes(l Line) []byte                         { return l.webVTTBytes() }
+func VerifParseWebVTTTimestampMap(line string) (*WebVTTTimestampMap, error) {
+	return parseWebVTTTimestampMap(line)
+}
